@@ -927,6 +927,10 @@ def run(prog: Program, res: Result) -> None:
     res.floor("C17.R12", "callers of _error_context", n12, 2)
 
     progress_rule(prog, res, lexer, lm, state_fns)
+    res.rule("C17.R13", "a token's value is the text it was scanned from: no Unicode normalisation or case folding in liquid2 (a WORD token's stop is index + len(value); a normalised value is shorter than the scanned text and the span loses its last characters)")
+    from checks.shared import check_no_text_normalisation
+
+    check_no_text_normalisation(prog, res, "C17.R13")
 
     # ---------------------------------------------------------------- R1d: saved start marks are fresh when a token is built from them
     res.rule("C17.R1d", "a token built with start=self.<mark> (markup_start, line_start: scan positions saved from self.start) is reached only on paths where the mark was saved after the previous token built from it - across state-function hand-overs (interprocedural fixpoint)")
@@ -1294,9 +1298,9 @@ class Progress:
             self.fn = saved
 
 
-def progress_rule(prog: Program, res: Result, lexer: ClassInfo, lm: LexerModel, state_fns: list[str]) -> None:
+def progress_rule(prog: Program, res: Result, lexer: ClassInfo, lm: LexerModel, state_fns: list[str], rule: str = "C17.R3") -> None:
     res.rule(
-        "C17.R3",
+        rule,
         "lexer progress: every `while` back edge in a Lexer method, and every hand-over `return self.<state fn>`, is reached only after "
         "self.pos advanced (regex minimum widths from re._parser): scanning terminates within len(source) steps and no state cycle spins in place",
     )
@@ -1309,10 +1313,10 @@ def progress_rule(prog: Program, res: Result, lexer: ClassInfo, lm: LexerModel, 
     txt = norm(at.node, 20000) if at else ""
     what = "accept_token consumes a non-empty TOKEN_RULES match before returning True and returns False without moving otherwise"
     if at is not None and widths.get("TOKEN_RULES", 0) >= 1 and "match = self.TOKEN_RULES.match(self.source, pos=self.pos)" in txt and "if not match: return False" in txt and "self.pos += len(value)" in txt and "value = match.group()" in txt and sum(1 for r in ast.walk(at.node) if isinstance(r, ast.Return)) == 2:
-        res.ok("C17.R3", f"{rel}:{at.node.lineno} Lexer.accept_token", what, "guard for the trusted advance fact")
+        res.ok(rule, f"{rel}:{at.node.lineno} Lexer.accept_token", what, "guard for the trusted advance fact")
     else:
-        res.fail("C17.R3", file=rel, line=at.node.lineno if at else 0, qualname="Lexer.accept_token", construct="accept_token no longer has the match-or-False / advance shape", message="accept_token may return True without consuming input (or the token pattern can match the empty string): the expression loops may spin", what=what)
-    res.floor("C17.R3", "compiled lexer patterns", len(widths), 10)
+        res.fail(rule, file=rel, line=at.node.lineno if at else 0, qualname="Lexer.accept_token", construct="accept_token no longer has the match-or-False / advance shape", message="accept_token may return True without consuming input (or the token pattern can match the empty string): the expression loops may spin", what=what)
+    res.floor(rule, "compiled lexer patterns", len(widths), 10)
     P = Progress(lm, widths)
     n_back = 0
     for name, f in sorted(lexer.methods.items()):
@@ -1356,9 +1360,9 @@ def progress_rule(prog: Program, res: Result, lexer: ClassInfo, lm: LexerModel, 
                 site = f"{rel}:{src.line} Lexer.{name}"
                 what = f"loop at line {loop.lineno}: back edge from `{norm(src.node, 50)}` only after an advance"
                 if st == A_:
-                    res.ok("C17.R3", site, what, "self.pos advanced on every path of this iteration")
+                    res.ok(rule, site, what, "self.pos advanced on every path of this iteration")
                 else:
-                    res.fail("C17.R3", file=rel, line=src.line, qualname=f"Lexer.{name}", construct=f"loop@{norm(loop.test, 20)} back edge via `{norm(src.node, 50)}` [{st}]", message=f"an iteration of the loop in Lexer.{name} can return to the loop head without consuming input ({st}): the lexer may spin forever on some source text", what=what)
+                    res.fail(rule, file=rel, line=src.line, qualname=f"Lexer.{name}", construct=f"loop@{norm(loop.test, 20)} back edge via `{norm(src.node, 50)}` [{st}]", message=f"an iteration of the loop in Lexer.{name} can return to the loop head without consuming input ({st}): the lexer may spin forever on some source text", what=what)
         if name in state_fns:
             IN = P.ts.solve(cfg, N_)
             for node in cfg.nodes:
@@ -1369,10 +1373,10 @@ def progress_rule(prog: Program, res: Result, lexer: ClassInfo, lm: LexerModel, 
                     site = f"{rel}:{node.line} Lexer.{name}"
                     what = f"hand-over `{norm(node.node)}` only after an advance"
                     if st == A_:
-                        res.ok("C17.R3", site, what, "input consumed since the state function was entered")
+                        res.ok(rule, site, what, "input consumed since the state function was entered")
                     else:
-                        res.fail("C17.R3", file=rel, line=node.line, qualname=f"Lexer.{name}", construct=f"{norm(node.node)} without progress [{st}]", message=f"Lexer.{name} can hand over to the next state without having consumed any input ({st}): two state functions can hand over to each other forever", what=what)
-    res.floor("C17.R3", "back edges and hand-overs examined", n_back, 20)
+                        res.fail(rule, file=rel, line=node.line, qualname=f"Lexer.{name}", construct=f"{norm(node.node)} without progress [{st}]", message=f"Lexer.{name} can hand over to the next state without having consumed any input ({st}): two state functions can hand over to each other forever", what=what)
+    res.floor(rule, "back edges and hand-overs examined", n_back, 20)
 
 
 def check_path_tokens(prog: Program, res: Result, rule: str) -> None:
@@ -1690,3 +1694,14 @@ def check_line_searches(prog: Program, res: Result, rule: str) -> None:
         res.ok(rule, f"{ec.file}:{ec.node.lineno} {ec.qualname}", what, "offset - (accumulated - len(lines[found]))")
     else:
         res.fail(rule, file=ec.file, line=ec.node.lineno, qualname=ec.qualname, construct="column is not offset - start of line", message="_error_context no longer computes the column as the offset minus the start of the line it found: the reported column does not point at the token", what=what)
+
+
+def check_lexer_progress(prog: Program, res: Result, rule: str) -> None:
+    """The lexer's termination argument under another property's id (C02.R12 = C17.R3)."""
+    mod = prog.mod("liquid2/lexer.py")
+    lexer = mod.classes.get("Lexer")
+    if lexer is None:
+        raise AnalysisError("Lexer class vanished")
+    lm = LexerModel(prog, lexer)
+    state_fns = [n for n, f in lexer.methods.items() if f.node.returns is not None and "StateFn" in norm(f.node.returns)]
+    progress_rule(prog, res, lexer, lm, state_fns, rule)
